@@ -14,7 +14,10 @@ def texts():
     t = {}
     t["modA"] = "\n\nfunction boom(a, b) {\n  const s = a + b;\n  throw new Error('boom ' + s);\n}\n"
     t["modB"] = "// pad\n// pad\n// pad\nfunction boom(a, b) {\n  const s = a.trim() +\n    `${b}`;\n\n\n  throw new Error(s +\n    'B');\n}\n"
-    t["plain"] = "function boom(a, b) {\n\n  throw new Error('plain');\n}\n"
+    # the not-modified text throws on a line that every other version's map would translate to a different
+    # line (checked by stale_map_guard): a stale map left over from an earlier rewrite must be visible
+    # (rewritten files start with an 18-line prologue, so the line has to lie beyond it)
+    t["plain"] = "function boom(a, b) {\n" + "  a;\n\n  b;\n" * 8 + "  throw new Error('plain');\n}\n"
     t["err"] = "function boom( {\n"
     body = "function boom(a, b) {\n  const s = a + b;\n\n  throw new Error('chained ' + s);\n}\n"
     nlines = body.count("\n") + 1
@@ -26,7 +29,7 @@ def texts():
 
 
 CLASSES = {"modA": "modified", "modB": "modified", "plain": "notmodified", "err": "error", "chain": "modified", "evalv": "modified"}
-THROW_LINE = {"modA": 5, "modB": 9, "plain": 3, "chain": 4 + 100, "evalv": 5}
+THROW_LINE = {"modA": 5, "modB": 9, "plain": 26, "chain": 4 + 100, "evalv": 5}
 
 
 def expected_lines(file):
@@ -37,6 +40,28 @@ def expected_lines(file):
     out["none"] = {"path": "", "line": 0}
     out["err"] = {"path": "", "line": 0}
     return out
+
+
+def stale_map_guard(table, tx):
+    """harness self-check: translating the throw position of a not-modified version w through the map of a modified
+    version v must give a different line than w's own line, otherwise a stale map could not be seen"""
+    for f in FILES.values():
+        for v, text in tx.items():
+            ent = table.get(text + "\u0000" + f)
+            if CLASSES[v] != "modified" or not ent or "content" not in ent:
+                continue
+            _, mj, _ = vlib.split_trailer(ent["content"])
+            toks = sorted(t for t in vlib.decode_mappings(json.loads(mj)["mappings"]) if t[2] is not None)
+            for w, ln in THROW_LINE.items():
+                if CLASSES[w] != "notmodified":       # a modified rewrite always replaces the cached map
+                    continue
+                for col in (0, 8, 40):
+                    below = [t for t in toks if (t[0], t[1]) <= (ln - 1, col)]
+                    got = below[-1][3] + 1 if below else ln
+                    if v == "chain":
+                        got += 100
+                    if got == ln:
+                        raise vlib.ToolError("package texts do not discriminate: %s line %d reads the same through the map of %s" % (w, ln, v))
 
 
 def run(seed, tier, extra_cases=None, use_cache=True):
@@ -85,6 +110,7 @@ def run(seed, tier, extra_cases=None, use_cache=True):
             table[k] = {"content": r["content"], "metrics": r["metrics"], "literals": r.get("literals")}
         else:
             table[k] = {"error": r.get("error") or "native failure"}
+    stale_map_guard(table, tx)
     # on-disk files for getOriginalPathAndLineFromSourceMap
     fsdir = os.path.join(vlib.WORK, "pkgfs")
     shutil.rmtree(fsdir, ignore_errors=True)
